@@ -1,4 +1,5 @@
 import CJ.Model.Config
+import CJ.Gen.C19Sources
 import CJ.Drv.Liveness
 /-! Driver for the configuration model.
 * `load|<decode>|<block>|<domains>|<phantom>|<allow>|<public 0/1>|<ifaces>`
@@ -137,12 +138,37 @@ def handleReload2 (args : List String) : Option String :=
     some (joinWith ";" (("ok:" ++ decisions na nh np startPol) :: outs.reverse))
   | _ => none
 
+/-! `ingestsrc|<source number>|<phantom blocklisted 0/1>` → `refused` | `admitted`: the phantom-blocklist checks on
+the way of a registration (`ValidateRegistration` early, `ingestRegistration` late), with the source sets of
+`CJ/Gen/C19Sources.lean` -/
+def handleIngestSrc (args : List String) : Option String :=
+  match args with
+  | [src, blocked] => do
+    let s ← src.toNat?
+    let b ← parseBool blocked
+    some (if phantomAdmitted CJ.Gen.C19Sources.exemptEarly CJ.Gen.C19Sources.checkedLate s b then "admitted" else "refused")
+  | _ => none
+
+/-- an operation of a `stats|…` case: `q,<now>,<addr>,<port>,<probe 0/1>[,<error kind>]` or `c,<now>` (the statistics
+printer only depends on which caches exist and how many entries they hold; the kind of a probe error is the
+liveness model's subject and is ignored here) -/
+def parseStatsOp (s : String) : Option CJ.Liveness.Op :=
+  match s.splitOn "," with
+  | ["q", now, a, port, p] => do
+    let _ ← port.toNat?
+    some (.query (← now.toInt?) a (← parseBool p))
+  | ["q", now, a, port, p, _] => do
+    let _ ← port.toNat?
+    some (.query (← now.toInt?) a (← parseBool p))
+  | ["c", now] => do some (.clear (← now.toInt?))
+  | _ => none
+
 def handleStats (args : List String) : Option String :=
   match args with
   | [dl, cl, dn, cn, ops] => do
     let cfg : CJ.Liveness.Config := { durLive := ← Liveness.parseDur dl, capLive := ← cl.toInt?,
                                       durNonLive := ← Liveness.parseDur dn, capNonLive := ← cn.toInt? }
-    let ops ← (fields ops ";").mapM Liveness.parseOp
+    let ops ← (fields ops ";").mapM parseStatsOp
     let t0 := CJ.Liveness.new cfg
     let t := CJ.Liveness.runFrom t0.1 ops
     let r := match printStats t with
